@@ -21,6 +21,10 @@ ASSUMPTIONS = ["IERS Bulletin C list of 27 insertions through 2017-01-01",
                "before the start of its month (an insertion happens at the end of the "
                "previous month)"]
 TIMES = [(0, 0, 0.0), (12, 0, 0.0), (23, 59, 59.0)]
+# UTC times at which the TT instant lies seconds either side of TT midnight (offset 42 .. 69 s), and civil instants
+# milliseconds either side of a civil midnight
+SEAM_TIMES = [(23, 58, 40.0), (23, 58, 52.0), (23, 58, 58.0), (23, 59, 4.0), (23, 59, 10.0), (23, 59, 16.5), (23, 59, 25.0),
+              (23, 59, 59.995), (23, 59, 59.9975), (0, 0, 0.0015), (0, 0, 0.004)]
 _FAST = None
 
 
@@ -238,6 +242,7 @@ def check_forms(y, m, c):
                  ("set_tuple", lambda: _set(Epoch(), ((y, m, fd),), kw)),
                  ("set_list", lambda: _set(Epoch(2000, 1, 1.0), ([y, m, fd],), kw)),
                  ("datetime", lambda: Epoch(datetime.datetime(y, m, d, h), **kw)),
+                 ("datetime_microseconds", lambda: Epoch(datetime.datetime(y, m, d, h, 0, 0, 250000), **kw) - 0.25 / 86400.0),
                  ("date_noon", lambda: Epoch(datetime.date(y, m, d), **kw) + 0.5)]
         for lab, mk in forms:
             try:
@@ -278,6 +283,13 @@ def run_states(block, ctx):
                 for site, msg, dev in check_offset(y, m, d, t, c):
                     ctx.viol({"y": y, "m": m, "d": d, "h": t[0], "count": c,
                               "last_day": d == L}, msg, dev=dev, site=site)
+        if y >= 1971:
+            for d in (1, 11, L):
+                for t in SEAM_TIMES:
+                    ctx.evals += 1
+                    for site, msg, dev in check_offset(y, m, d, t, c):
+                        ctx.viol({"y": y, "m": m, "d": d, "h": t[0], "mi": t[1], "s": t[2], "count": c,
+                                  "last_day": d == L}, msg, dev=dev, site=site)
         ctx.evals += 18
         for site, msg, dev in check_forms(y, m, c):
             ctx.viol({"y": y, "m": m, "count": c, "forms": True}, msg, dev=dev, site=site)
@@ -298,6 +310,8 @@ def replay_states(case):
         return [x[1] for x in check_forms(y, m, c)]
     if "override" in case:
         return [x[1] for x in check_override(y, m, c, case["override"])]
+    if "d" in case and "mi" in case:
+        return [x[1] for x in check_offset(y, m, case["d"], (case["h"], case["mi"], case["s"]), c)]
     if "d" in case:
         t = [t for t in TIMES if t[0] == case["h"]][0]
         return [x[1] for x in check_offset(y, m, case["d"], t, c)]
